@@ -25,7 +25,17 @@ const supervisorFallbackCloseTimeout = 10 * time.Second
 // never names a raw event constant — transport-detected transitions enter through the named
 // TransportRuntime methods (TCPUp/TCPDown/CommitSelected/SelectLost) — so this type stays
 // unexported (spec §5.3/§5.4).
-type fsmEvent uint8
+//
+// The low byte is the event kind (the constants below). The remaining bits optionally carry the
+// sequence tag of the event's CAUSE, captured by the injector when the cause happened (withTag /
+// split): the events queue is asynchronous, so by the time step() processes an event the TCP
+// generation it belongs to may be over and a later one committed. A tagged event older than the
+// current sequence is stale and step() ignores it. An event injected without a tag (every commit
+// event, evClose, and the raw events unit tests inject) is never stale.
+type fsmEvent uint64
+
+// fsmEventKindBits is the width of the kind field of an fsmEvent; the tag lives above it.
+const fsmEventKindBits = 8
 
 const (
 	evTCPUp          fsmEvent = iota // TCP came up: NotConnected -> NotSelected
@@ -35,6 +45,23 @@ const (
 	evClose                          // voluntary Close: any state -> NotConnected
 	evT7Timeout                      // T7 NOT-SELECTED dwell expired: NotSelected -> NotConnected (no-op otherwise)
 )
+
+// withTag returns ev (a bare kind) carrying the sequence tag seq. The tag is stored as seq+1 so that a
+// zero tag field means "untagged".
+func (ev fsmEvent) withTag(seq uint64) fsmEvent {
+	return ev | fsmEvent(seq+1)<<fsmEventKindBits
+}
+
+// split separates an event into its kind and its sequence tag; tagged is false for an untagged event.
+func (ev fsmEvent) split() (kind fsmEvent, seq uint64, tagged bool) {
+	kind = ev & (1<<fsmEventKindBits - 1)
+
+	if t := uint64(ev >> fsmEventKindBits); t != 0 {
+		return kind, t - 1, true
+	}
+
+	return kind, 0, false
+}
 
 // stateChange is one logical E37 transition, reported to the notifier as (prev -> next).
 type stateChange struct {
@@ -98,6 +125,13 @@ type supervisor struct {
 	// Selected for it (a peer that pipelines Select.req + Deselect.req would otherwise end up
 	// Selected on our side after being told the deselect succeeded).
 	deselectPending atomic.Int32
+
+	// generation is the TCP generation sequence number: CommitConnected advances it for every TCP-up
+	// commit. An involuntary disconnect is reported asynchronously (injectDisconnect tags its evDisconnect
+	// with the generation current when the failure was detected), so step() can tell a disconnect of
+	// the CURRENT generation from one of an EARLIER generation that was still queued when the reconnect
+	// committed — the latter must not take the new generation down.
+	generation atomic.Uint64
 }
 
 // newSupervisorWithEventsCap builds a supervisor with an explicit events-queue capacity
@@ -195,13 +229,32 @@ func (s *supervisor) State() ConnState {
 // when not NotConnected is a no-op returning false (TCPUp is driven once per generation, and the
 // only transition out of NotConnected is evTCPUp itself, so the CAS always succeeds in practice).
 func (s *supervisor) CommitConnected() (committed bool) {
+	// Open the new generation BEFORE the CAS (the deselectPending protocol): step() reads the state
+	// first and the generation second, so it can never observe the committed NotSelected of the new
+	// generation together with the old generation number — under which a still-queued evDisconnect of
+	// the previous generation would pass for a current one.
+	s.generation.Add(1)
+
 	if s.state.CompareAndSwap(uint32(NotConnectedState), uint32(NotSelectedState)) {
 		s.inject(evTCPUp)
 
 		return true
 	}
 
+	// No commit, no new generation. (The CAS fails only if TCPUp is driven twice for one generation,
+	// which the transports never do — see above.)
+	s.generation.Add(^uint64(0))
+
 	return false
+}
+
+// injectDisconnect reports an involuntary drop of the CURRENT TCP generation (TCPDown): it enqueues an
+// evDisconnect tagged with the generation in which the failure was detected. The transport joins every
+// goroutine of generation N before it dials generation N+1, so the tag is N whenever the cause belongs
+// to N; if run() is late and processes the event only after CommitConnected has opened generation N+1,
+// step() ignores it instead of disconnecting the new generation.
+func (s *supervisor) injectDisconnect() {
+	s.inject(evDisconnect.withTag(s.generation.Load()))
 }
 
 // CommitSelected performs the H2 §7.D synchronous responder commit: a guarded CAS
@@ -274,13 +327,16 @@ func (s *supervisor) run() {
 // evT7Timeout store is a CAS(cur -> next) (not a plain Store), and evSelectLost is abandoned when the
 // state is observed Selected (a pipelined re-Select re-committed after CommitSelectLost's CAS) — in
 // both cases step early-returns and leaves the committed Selected session intact rather than tearing
-// it down / flapping it (§9.2.2). Regardless of the
+// it down / flapping it (§9.2.2). An evDisconnect tagged with an EARLIER TCP generation than the
+// current one (injectDisconnect / CommitConnected) is ignored altogether. Regardless of the
 // transition, evClose additionally and unconditionally
 // initiates teardown of the PINNED epoch (idempotent closeOnce) so a Close while already
 // NotConnected — where no transition fires — still initiates teardown and Close's e.wait()
 // cannot hang (spec §5.3). closeEpoch is nil-guarded so a raw evClose (no requestClose) is a
 // safe no-op.
-func (s *supervisor) step(ev fsmEvent) {
+func (s *supervisor) step(in fsmEvent) {
+	ev, seq, tagged := in.split()
+
 	// I2: once evClose has been processed the supervisor is LATCHED closed — every later event is a
 	// no-op. This closes the Close-vs-reconnect-Start race where an evTCPUp queued behind evClose
 	// (NotConnected -> NotSelected is a legal table entry) would resurrect NotSelected AFTER Close,
@@ -317,6 +373,14 @@ func (s *supervisor) step(ev fsmEvent) {
 	// flap the FSM (spuriously Rejecting a legitimately-selected peer's next frame, the efb220b class).
 	// Same supersession rationale as the evT7Timeout CAS below.
 	if ev == evSelectLost && cur == SelectedState {
+		return
+	}
+
+	// A disconnect reported by an EARLIER TCP generation is stale: that generation was already taken
+	// down (by the first report of the same drop, by T7, ...), the reconnect committed a new one, and
+	// this event was still queued behind. It says nothing about the current generation — ignore it
+	// entirely (no store, no reaction). The generation is read AFTER the state (see CommitConnected).
+	if ev == evDisconnect && tagged && seq < s.generation.Load() {
 		return
 	}
 
